@@ -74,6 +74,15 @@ func (p *Prog) GoEntries() []*GoEntry {
 		e := &GoEntry{Stmt: g, Entry: p.Callee(g), Multi: blockInLoop(g.Block())}
 		if e.Entry != nil && e.Entry.Signature.Recv() != nil {
 			e.Recv = namedOrigin(e.Entry.Signature.Recv().Type())
+		} else if e.Entry != nil && p.IsProduct(e.Entry) && len(e.Entry.Params) > 0 && e.Entry.Parent() == nil {
+			// a plain function taking the discipline as its first parameter (a method turned into a function)
+			if pt, isPtr := e.Entry.Params[0].Type().Underlying().(*types.Pointer); isPtr {
+				if nt := namedOrigin(pt); nt != nil {
+					if _, isStruct := nt.Underlying().(*types.Struct); isStruct && nt.Obj().Pkg() == e.Entry.Pkg.Pkg {
+						e.Recv = nt
+					}
+				}
+			}
 		}
 		out = append(out, e)
 	}
